@@ -1,6 +1,6 @@
 (* C03 — lemmas and proofs. *)
 From Coq Require Import List ZArith NArith Bool Lia Permutation Sorted Relations.
-From DuneV Require Import C03_Model C03_Spec.
+From DuneV Require Import C03_Params C03_Model C03_Spec.
 Import ListNotations.
 Local Open Scope Z_scope.
 
@@ -295,7 +295,7 @@ Lemma c03_search_correct l g : c03_gsorted l -> c03_size_ok l -> l <> [] ->
     (S low = length l \/ g <= c03_g p) /\
     ((2 <= length l)%nat -> 0 <= probe) /\ (length l = 1%nat -> probe = -1).
 Proof.
-  intros GS SZ Hne. unfold c03_search.
+  intros GS SZ Hne. unfold c03_search, c03_param_low_init, c03_param_probe_init.
   assert (Hlen : (1 <= length l)%nat) by (destruct l; simpl; [congruence | lia]).
   assert (Hov : (Z.of_nat (length l) - 1 >? c03_int_max) = false).
   { rewrite Z.gtb_ltb. apply Z.ltb_ge. unfold c03_int_max, c03_size_ok in *. change (2^30) with 1073741824 in SZ. lia. }
@@ -310,6 +310,26 @@ Proof.
   - intros. apply H5. lia.
   - intros. apply H6. lia.
 Qed.
+
+(* the two spellings of the comparison in the five copies of the search are the same function *)
+Lemma c03_bs_loop_nc_eq fuel l g : forall low high probe,
+  c03_bs_loop_nc fuel l g low high probe = c03_bs_loop fuel l g low high probe.
+Proof.
+  induction fuel as [|f IH]; intros low high probe; simpl; auto.
+  destruct (low <? high); auto. destruct (high + low >? c03_int_max); auto.
+  destruct (nth_error l (Z.to_nat (Z.quot (high + low) 2))) as [p|]; auto.
+  rewrite Z.geb_leb, !IH. auto.
+Qed.
+Lemma c03_search_nc_eq l g : c03_search_nc l g = c03_search l g.
+Proof. unfold c03_search_nc, c03_search. rewrite c03_bs_loop_nc_eq. auto. Qed.
+Lemma c03_at_c_eq legacy l g : c03_at_c legacy l g = c03_at legacy l g.
+Proof.
+  unfold c03_at_c, c03_at. rewrite c03_search_nc_eq. destruct (c03_search l g); auto.
+  destruct (c03_no_entries legacy l probe); auto. destruct (nth_error l (Z.to_nat low)); auto.
+  destruct (c03_g c =? g); auto.
+Qed.
+Lemma c03_get_c_eq l g : c03_get_c l g = c03_get l g.
+Proof. unfold c03_get_c, c03_get. rewrite c03_search_nc_eq. auto. Qed.
 
 Lemma c03_find_first (f : c03_pair -> bool) l : forall k p, nth_error l k = Some p -> f p = true ->
   (forall i q, (i < k)%nat -> nth_error l i = Some q -> f q = false) -> find f l = Some p.
@@ -352,7 +372,7 @@ Lemma c03_exists_correct l g : c03_gsorted l -> c03_size_ok l ->
 Proof.
   intros GS SZ. destruct l as [|x r] eqn:El; [reflexivity|]. rewrite <- El in *.
   destruct (c03_search_correct l g GS SZ) as (low & probe & p & H1 & H2 & H3 & H4 & _); [subst; discriminate|].
-  unfold c03_exists. rewrite H1. unfold c03_no_entries.
+  unfold c03_exists. rewrite c03_search_nc_eq, H1. unfold c03_no_entries.
   replace (length l =? 0)%nat with false by (subst; auto).
   rewrite Nat2Z.id, H2, c03_existsb_find, (c03_find_at l g low p) by auto.
   destruct (c03_g p =? g); auto.
@@ -362,7 +382,7 @@ Lemma c03_at_correct l g : c03_gsorted l -> c03_size_ok l ->
 Proof.
   intros GS SZ. destruct l as [|x r] eqn:El; [reflexivity|]. rewrite <- El in *.
   destruct (c03_search_correct l g GS SZ) as (low & probe & p & H1 & H2 & H3 & H4 & _); [subst; discriminate|].
-  unfold c03_at. rewrite H1. unfold c03_no_entries.
+  unfold c03_at. rewrite c03_search_nc_eq, H1. unfold c03_no_entries.
   replace (length l =? 0)%nat with false by (subst; auto).
   rewrite Nat2Z.id, H2, (c03_find_at l g low p) by auto.
   destruct (c03_g p =? g); auto.
@@ -372,7 +392,7 @@ Lemma c03_get_correct l g p : c03_gsorted l -> c03_size_ok l ->
 Proof.
   intros GS SZ Hf. destruct l as [|x r] eqn:El; [discriminate|]. rewrite <- El in *.
   destruct (c03_search_correct l g GS SZ) as (low & probe & p' & H1 & H2 & H3 & H4 & _); [subst; discriminate|].
-  unfold c03_get. rewrite H1, Nat2Z.id, H2.
+  unfold c03_get. rewrite c03_search_nc_eq, H1, Nat2Z.id, H2.
   rewrite (c03_find_at l g low p') in Hf by auto. destruct (c03_g p' =? g); congruence.
 Qed.
 (* the legacy `probe == -1` test is right exactly when the size is not 1 *)
@@ -384,7 +404,7 @@ Proof.
   rewrite <- c03_exists_correct, <- c03_at_correct by auto.
   destruct (c03_search_correct l g GS SZ) as (low & probe & p & Hs & H2 & H3 & H4 & H5 & _); [subst; discriminate|].
   assert (Hp : 0 <= probe). { apply H5. subst. simpl in *. destruct r; simpl in *; [congruence | lia]. }
-  unfold c03_exists, c03_at. rewrite Hs. unfold c03_no_entries.
+  unfold c03_exists, c03_at. rewrite c03_search_nc_eq, Hs. unfold c03_no_entries.
   replace (probe =? -1) with false by (symmetry; apply Z.eqb_neq; lia).
   replace (length l =? 0)%nat with false by (subst; auto). auto.
 Qed.
@@ -528,7 +548,7 @@ Lemma c03_setlocal_correct l g v : c03_gsorted l -> c03_size_ok l ->
 Proof.
   intros GS SZ. destruct l as [|x r] eqn:El; [reflexivity|]. rewrite <- El in *.
   destruct (c03_search_correct l g GS SZ) as (low & probe & p & H1 & H2 & H3 & H4 & _); [subst; discriminate|].
-  unfold c03_setlocal. rewrite H1. unfold c03_no_entries.
+  unfold c03_setlocal. rewrite c03_search_nc_eq, H1. unfold c03_no_entries.
   replace (length l =? 0)%nat with false by (subst; auto).
   rewrite Nat2Z.id, H2, (c03_find_at l g low p) by auto.
   destruct (c03_g p =? g) eqn:E; auto.
@@ -843,17 +863,17 @@ Proof.
   destruct st as [rz local fresh sq dl]. destruct op; simpl; intros H; try rewrite H; simpl; try discriminate.
   - destruct (c03_mark k local); simpl; discriminate.
   - destruct (c03_merge local (c03_sort fresh) dl); simpl; discriminate.
-  - unfold c03_exists. destruct (c03_search local g); simpl; try discriminate.
+  - unfold c03_exists. destruct (c03_search_nc local g); simpl; try discriminate.
     destruct (c03_no_entries legacy local probe); try discriminate. destruct (nth_error local (Z.to_nat low)); discriminate.
-  - unfold c03_at. destruct (c03_search local g); simpl; try discriminate.
+  - unfold c03_at. destruct (c03_search_nc local g); simpl; try discriminate.
     destruct (c03_no_entries legacy local probe); try discriminate. destruct (nth_error local (Z.to_nat low)); try discriminate.
     destruct (c03_g c =? g); discriminate.
-  - unfold c03_get. destruct (c03_search local g); simpl; try discriminate. destruct (nth_error local (Z.to_nat low)); discriminate.
+  - unfold c03_get. destruct (c03_search_nc local g); simpl; try discriminate. destruct (nth_error local (Z.to_nat low)); discriminate.
   - unfold c03_reverse, c03_tab_pair. destruct (c03_tab_fill _ local); try discriminate.
     destruct (nth_error l0 (N.to_nat l)) as [[|]|]; discriminate.
   - unfold c03_reverse_sized, c03_tab_pair. destruct (c03_tab_fill _ local); try discriminate.
     destruct (nth_error l0 (N.to_nat l)) as [[|]|]; discriminate.
-  - unfold c03_setlocal. destruct (c03_search local g); simpl; try discriminate.
+  - unfold c03_setlocal. destruct (c03_search_nc local g); simpl; try discriminate.
     destruct (c03_no_entries legacy local probe); simpl; try discriminate.
     destruct (nth_error local (Z.to_nat low)); simpl; try discriminate. destruct (c03_g c =? g); simpl; discriminate.
   - unfold c03_cmp_out. destruct (nth_error local i), (nth_error local j); discriminate.
@@ -923,3 +943,317 @@ Proof.
     - apply in_rev. rewrite rev_involutive. auto. }
   rewrite c03_reverse_spec; rewrite E; auto. discriminate.
 Qed.
+
+(* ================================================================== proof-deepening round *)
+(* ------------------------------------------------------------------ the state invariant over ALL histories (checking enabled),
+   without any definedness or size hypothesis and for both spellings of the "no entries" test *)
+Lemma c03_upd_nth_same_key v : forall k l, Forall2 c03_same_key l (c03_upd_nth k v l).
+Proof.
+  assert (R : forall m : list c03_pair, Forall2 c03_same_key m m) by (induction m; constructor; auto; split; auto).
+  induction k as [|k IH]; intros [|p r]; simpl; try constructor; auto; split; auto.
+Qed.
+Lemma c03_upd_nth_valid v : forall k l, c03_all_valid l -> c03_all_valid (c03_upd_nth k v l).
+Proof.
+  unfold c03_all_valid. induction k as [|k IH]; intros [|p r] H; simpl; auto; inversion H; subst; constructor; auto.
+Qed.
+Lemma c03_setlocal_shape legacy l g v :
+  fst (c03_setlocal legacy l g v) = l \/ exists k, fst (c03_setlocal legacy l g v) = c03_upd_nth k v l.
+Proof.
+  unfold c03_setlocal. destruct (c03_search_nc l g); simpl; auto.
+  destruct (c03_no_entries legacy l probe); simpl; auto.
+  destruct (nth_error l (Z.to_nat low)); simpl; auto.
+  destruct (c03_g c =? g); simpl; eauto.
+Qed.
+
+Lemma c03_inv_same_key b rz local local' fresh sq dl :
+  Forall2 c03_same_key local local' -> (c03_all_valid local -> c03_all_valid local') ->
+  c03_inv b (C03State rz local fresh sq dl) -> c03_inv b (C03State rz local' fresh sq dl).
+Proof.
+  intros F V [I1 I2 I3 I4 I5]; simpl in *. constructor; simpl; auto.
+  - eapply c03_sorted_forall2; eauto.
+  - rewrite <- (c03_forall2_length _ _ F). auto.
+Qed.
+
+Lemma c03_step_inv b legacy ms op :
+  c03_inv b ms -> c03_inv (if c03_is_add op then S b else b) (fst (c03_step true legacy ms op)).
+Proof.
+  intros I. destruct ms as [rz local fresh sq dl].
+  pose proof I as [I1 I2 I3 I4 I5]; simpl in I1, I2, I3, I4, I5.
+  destruct op; simpl c03_is_add; cbv iota; simpl; try exact I.
+  - (* beginResize *) destruct rz; simpl; [exact I|]. constructor; simpl; auto.
+  - (* add *) destruct rz; simpl.
+    + constructor; simpl; auto; try (intros; discriminate).
+      all: try solve [unfold c03_all_valid; apply Forall_app; split; auto; repeat constructor].
+      all: try solve [rewrite app_length; simpl; lia].
+    + eapply c03_inv_mono; [|exact I]. lia.
+  - (* markAsDeleted *) destruct rz; simpl; [|exact I].
+    rewrite c03_mark_spec. destruct (k <? length local)%nat; simpl.
+    + constructor; simpl; auto; try (intros; discriminate).
+      all: try solve [eapply c03_sorted_forall2; [apply c03_set_nth_same_key | auto]].
+      all: try solve [rewrite c03_set_nth_length; auto].
+    + constructor; simpl; auto; intros; discriminate.
+  - (* endResize *) destruct rz; simpl; [|exact I].
+    rewrite c03_merge_spec; auto.
+    2:{ intros Hd. apply c03_all_valid_forallb. auto. }
+    simpl.
+    assert (V : c03_all_valid (c03_sort (fresh ++ filter c03s_valid local))).
+    { unfold c03_all_valid. eapply Permutation_Forall; [symmetry; apply c03_sort_perm|].
+      apply Forall_app. split; auto. apply c03_filter_all_valid. }
+    constructor; simpl; auto; try (intros; discriminate).
+    all: try solve [apply c03_sort_sorted].
+    all: try solve [constructor].
+    all: try solve [rewrite c03_sort_length, app_length; pose proof (c03_filter_length c03s_valid local); lia].
+  - (* renumberLocal *) destruct rz; simpl; [exact I|].
+    apply (c03_inv_same_key b false local); auto.
+    + apply c03_renumber_same_key.
+    + intros. apply c03_renumber_valid. auto.
+  - (* at(g).setLocal *)
+    destruct (c03_setlocal legacy local g l) as [local' o] eqn:E. simpl.
+    pose proof (c03_setlocal_shape legacy local g l) as [H|[k H]]; rewrite E in H; simpl in H; subst local'; auto.
+    apply (c03_inv_same_key b rz local); auto.
+    + apply c03_upd_nth_same_key.
+    + apply c03_upd_nth_valid.
+Qed.
+
+Definition c03_ground_clean (st : c03_state) : Prop := c03_resize st = false -> c03_fresh st = [].
+Lemma c03_step_ground_clean legacy st op :
+  c03_ground_clean st -> c03_ground_clean (fst (c03_step true legacy st op)).
+Proof.
+  unfold c03_ground_clean. destruct st as [rz local fresh sq dl]. simpl.
+  destruct op; simpl; auto;
+    try (destruct rz; simpl; auto; try (intros; discriminate));
+    try (destruct (c03_mark k local); simpl; auto);
+    try (destruct (c03_merge local (c03_sort fresh) dl); simpl; auto);
+    try (destruct (c03_setlocal legacy local g l); simpl; auto).
+Qed.
+
+Lemma c03_run_inv legacy ops : forall b st,
+  c03_inv b st -> c03_ground_clean st ->
+  c03_inv (b + c03_adds ops) (fst (c03_run true legacy st ops)) /\ c03_ground_clean (fst (c03_run true legacy st ops)).
+Proof.
+  induction ops as [|op r IH]; intros b st I G.
+  - simpl. unfold c03_adds. simpl. rewrite Nat.add_0_r. auto.
+  - rewrite c03_run_cons. simpl fst.
+    assert (Hadds : c03_adds (op :: r) = ((if c03_is_add op then 1 else 0) + c03_adds r)%nat).
+    { unfold c03_adds. simpl. destruct (c03_is_add op); auto. }
+    destruct (IH _ _ (c03_step_inv b legacy st op I) (c03_step_ground_clean legacy st op G)) as [H1 H2].
+    split; auto.
+    replace (b + c03_adds (op :: r))%nat with ((if c03_is_add op then S b else b) + c03_adds r)%nat; auto.
+    rewrite Hadds. destruct (c03_is_add op); lia.
+Qed.
+
+Lemma c03_invariant_lemma legacy ops :
+  let st := fst (c03_run true legacy c03_init ops) in
+  Sorted c03_key_le (c03_local st) /\
+  c03_all_valid (c03_fresh st) /\
+  (c03_resize st = false -> c03_all_valid (c03_local st) /\ c03_fresh st = []) /\
+  (length (c03_local st) + length (c03_fresh st) <= c03_adds ops)%nat.
+Proof.
+  destruct (c03_run_inv legacy ops 0 c03_init c03_init_inv) as [[I1 I2 I3 I4 I5] G].
+  { intros _. reflexivity. }
+  simpl. repeat split; auto.
+Qed.
+
+(* lookups after ANY history: the sortedness hypothesis of C03_lookup is established by the code itself *)
+Lemma c03_lookup_history_lemma ops :
+  Z.of_nat (c03_adds ops) <= 2 ^ 30 ->
+  let l := c03_local (fst (c03_run true false c03_init ops)) in
+  forall g,
+    c03_exists false l g = C03Bool (existsb (c03s_has g) l) /\
+    c03_at false l g = match find (c03s_has g) l with Some p => C03PairOut p | None => C03RangeError end /\
+    c03_at_c false l g = c03_at false l g /\
+    (forall p, find (c03s_has g) l = Some p -> c03_get l g = C03PairOut p /\ c03_get_c l g = C03PairOut p).
+Proof.
+  intros B l g. destruct (c03_invariant_lemma false ops) as (S & _ & _ & Hlen). fold l in S, Hlen.
+  assert (GS : c03_gsorted l) by (apply c03_sorted_gsorted; auto).
+  assert (SZ : c03_size_ok l) by (unfold c03_size_ok; lia).
+  split; [apply c03_exists_correct; auto|]. split; [apply c03_at_correct; auto|]. split; [apply c03_at_c_eq|].
+  intros p Hp. rewrite c03_get_c_eq. split; apply c03_get_correct; auto.
+Qed.
+
+Lemma c03_const_paths_lemma legacy l g : c03_at_c legacy l g = c03_at legacy l g /\ c03_get_c l g = c03_get l g.
+Proof. split; [apply c03_at_c_eq | apply c03_get_c_eq]. Qed.
+
+(* ------------------------------------------------------------------ one resize phase on the MODEL: content = added ++ (old minus marked) *)
+(* positions s, s+1, ... of l; those listed in ds get the DELETED flag / are removed *)
+Fixpoint c03_mark_from (s : nat) (ds : list nat) (l : list c03_pair) : list c03_pair :=
+  match l with
+  | [] => []
+  | p :: r => (if existsb (Nat.eqb s) ds then c03_set_del p else p) :: c03_mark_from (S s) ds r
+  end.
+Fixpoint c03_remove_from (s : nat) (ds : list nat) (l : list c03_pair) : list c03_pair :=
+  match l with
+  | [] => []
+  | p :: r => if existsb (Nat.eqb s) ds then c03_remove_from (S s) ds r else p :: c03_remove_from (S s) ds r
+  end.
+Definition c03_is_phase_op (n : nat) (op : c03_op) : bool :=
+  match op with C03Add _ _ _ _ => true | C03MarkDeleted k => (k <? n)%nat | _ => false end.
+Definition c03_phase_adds (body : list c03_op) : list c03_pair :=
+  flat_map (fun op => match op with C03Add g l a p => [C03Pair g l a p false] | _ => [] end) body.
+Definition c03_phase_dels (body : list c03_op) : list nat :=
+  flat_map (fun op => match op with C03MarkDeleted k => [k] | _ => [] end) body.
+
+Lemma c03_mark_from_nil s l : c03_mark_from s [] l = l.
+Proof. revert s. induction l as [|p r IH]; intros s; simpl; auto. rewrite IH. auto. Qed.
+Lemma c03_mark_from_length ds : forall l s, length (c03_mark_from s ds l) = length l.
+Proof. induction l; intros; simpl; auto. Qed.
+Lemma c03_mark_from_small j ds : forall l s, (j < s)%nat -> c03_mark_from s (ds ++ [j]) l = c03_mark_from s ds l.
+Proof.
+  induction l as [|p r IH]; intros s H; simpl; auto.
+  rewrite IH by lia. rewrite existsb_app. simpl.
+  replace (s =? j)%nat with false by (symmetry; apply Nat.eqb_neq; lia). rewrite !orb_false_r. auto.
+Qed.
+Lemma c03_set_del_idem p : c03_set_del (c03_set_del p) = c03_set_del p.
+Proof. reflexivity. Qed.
+Lemma c03_set_nth_cons0 p r : c03s_set_nth 0 (p :: r) = c03_set_del p :: r.
+Proof. reflexivity. Qed.
+Lemma c03_set_nth_consS k p r : c03s_set_nth (S k) (p :: r) = p :: c03s_set_nth k r.
+Proof. reflexivity. Qed.
+Lemma c03_set_nth_mark_from ds : forall l s k, (k < length l)%nat ->
+  c03s_set_nth k (c03_mark_from s ds l) = c03_mark_from s (ds ++ [s + k]%nat) l.
+Proof.
+  induction l as [|p r IH]; intros s k H; simpl in H; [lia|].
+  destruct k as [|k'].
+  - simpl c03_mark_from. rewrite c03_set_nth_cons0, Nat.add_0_r, c03_mark_from_small by lia.
+    rewrite existsb_app. simpl. rewrite Nat.eqb_refl, orb_true_r. simpl.
+    destruct (existsb (Nat.eqb s) ds); auto.
+  - simpl c03_mark_from. rewrite c03_set_nth_consS, IH by lia.
+    replace (S s + k')%nat with (s + S k')%nat by lia.
+    rewrite existsb_app. simpl.
+    replace (s =? s + S k')%nat with false by (symmetry; apply Nat.eqb_neq; lia). rewrite !orb_false_r. auto.
+Qed.
+Lemma c03_mark_from_same_key ds : forall l s, Forall2 c03_same_key l (c03_mark_from s ds l).
+Proof. induction l; intros; simpl; constructor; auto. destruct (existsb (Nat.eqb s) ds); split; auto. Qed.
+Lemma c03_filter_mark_from ds : forall l s, c03_all_valid l ->
+  filter c03s_valid (c03_mark_from s ds l) = c03_remove_from s ds l.
+Proof.
+  induction l as [|p r IH]; intros s H; simpl; auto. inversion H as [|? ? Hp Hr]; subst.
+  destruct (existsb (Nat.eqb s) ds); simpl.
+  - apply IH; auto.
+  - rewrite Hp, IH; auto.
+Qed.
+
+(* the body of a phase: only adds and marks of existing positions, in any interleaving *)
+Lemma c03_phase_body legacy sq local0 : forall body fresh ds dl,
+  forallb (c03_is_phase_op (length local0)) body = true ->
+  exists dl',
+    fst (c03_run true legacy (C03State true (c03_mark_from 0 ds local0) fresh sq dl) body) =
+      C03State true (c03_mark_from 0 (ds ++ c03_phase_dels body) local0) (fresh ++ c03_phase_adds body) sq dl' /\
+    (dl' = false -> dl = false /\ c03_phase_dels body = []).
+Proof.
+  induction body as [|op r IH]; intros fresh ds dl H.
+  - simpl. rewrite !app_nil_r. exists dl. auto.
+  - simpl in H. apply andb_true_iff in H. destruct H as [H1 H2]. rewrite c03_run_cons. simpl fst.
+    destruct op; simpl in H1; try discriminate.
+    + simpl c03_step. simpl fst.
+      destruct (IH (fresh ++ [C03Pair g loc attr pub false]) ds dl H2) as (dl' & E & D).
+      exists dl'. rewrite E. simpl. rewrite <- app_assoc. auto.
+    + apply Nat.ltb_lt in H1. simpl c03_step. rewrite c03_mark_spec, c03_mark_from_length.
+      replace (k <? length local0)%nat with true by (symmetry; apply Nat.ltb_lt; auto). simpl fst.
+      rewrite c03_set_nth_mark_from by (rewrite ?c03_mark_from_length; auto). simpl plus.
+      destruct (IH fresh (ds ++ [k]) true H2) as (dl' & E & D).
+      exists dl'. rewrite E. simpl. rewrite <- app_assoc. split; auto.
+      intros Hd. destruct (D Hd). discriminate.
+Qed.
+
+Lemma c03_resize_phase_lemma legacy st body :
+  c03_resize st = false -> c03_fresh st = [] -> Sorted c03_key_le (c03_local st) -> c03_all_valid (c03_local st) ->
+  forallb (c03_is_phase_op (length (c03_local st))) body = true ->
+  let st' := fst (c03_run true legacy st ([C03Begin] ++ body ++ [C03End])) in
+  c03_resize st' = false /\ c03_fresh st' = [] /\ c03_seq st' = c03_seq st + 1 /\
+  Sorted c03_key_le (c03_local st') /\ c03_all_valid (c03_local st') /\
+  Permutation (c03_local st') (c03_phase_adds body ++ c03_remove_from 0 (c03_phase_dels body) (c03_local st)).
+Proof.
+  destruct st as [rz local fresh sq dl]. intros Hr Hf S V B. simpl in Hr, Hf, S, V, B. subst rz fresh.
+  cbv zeta. change ([C03Begin] ++ body ++ [C03End]) with (C03Begin :: (body ++ [C03End])).
+  rewrite c03_run_cons. simpl c03_step. simpl fst. simpl c03_seq.
+  assert (Hrun : forall a b st0, fst (c03_run true legacy st0 (a ++ b)) = fst (c03_run true legacy (fst (c03_run true legacy st0 a)) b)).
+  { induction a as [|x a IH]; intros b st0; [reflexivity|]. simpl app. rewrite !c03_run_cons. simpl fst. apply IH. }
+  rewrite Hrun.
+  destruct (c03_phase_body legacy sq local body [] [] false B) as (dl' & E & D).
+  rewrite c03_mark_from_nil in E. rewrite E. simpl app.
+  rewrite c03_run_cons. simpl c03_step.
+  rewrite c03_merge_spec.
+  - simpl. pose proof (c03_filter_mark_from (c03_phase_dels body) local 0 V) as F. rewrite F.
+    repeat split; auto.
+    + apply c03_sort_sorted.
+    + unfold c03_all_valid. eapply Permutation_Forall; [symmetry; apply c03_sort_perm|].
+      apply Forall_app. split.
+      * clear. induction body as [|op r IH]; simpl; [constructor|]. apply Forall_app. split; auto.
+        destruct op; repeat constructor.
+      * rewrite <- F. apply c03_filter_all_valid.
+    + apply c03_sort_perm.
+  - eapply c03_sorted_forall2; [apply c03_mark_from_same_key | auto].
+  - intros Hd. destruct (D Hd) as [_ Hn]. rewrite Hn, c03_mark_from_nil. apply c03_all_valid_forallb. auto.
+Qed.
+
+(* ------------------------------------------------------------------ reverse lookup: more of it *)
+Lemma c03s_reverse_found l sz p : NoDup (map c03_loc l) -> In p l ->
+  (forall q, In q l -> (c03_loc q < sz)%N) -> c03s_reverse l sz (c03_loc p) = C03PairOut p.
+Proof.
+  intros ND Hin Hsz. unfold c03s_reverse.
+  assert (E1 : existsb (fun q => (sz <=? c03_loc q)%N) l = false).
+  { destruct (existsb _ l) eqn:E; auto. apply existsb_exists in E. destruct E as (q & Hq & Hle).
+    apply N.leb_le in Hle. specialize (Hsz q Hq). lia. }
+  rewrite E1. replace (sz <=? c03_loc p)%N with false by (symmetry; apply N.leb_gt; auto).
+  rewrite (c03_find_unique c03_loc N.eqb N.eqb_eq (rev l) p); auto.
+  - rewrite map_rev. apply NoDup_rev. auto.
+  - apply in_rev. rewrite rev_involutive. auto.
+Qed.
+Lemma c03_reverse_sized_lemma l sz p : NoDup (map c03_loc l) -> In p l ->
+  (forall q, In q l -> (c03_loc q < sz)%N) -> c03_reverse_sized l sz (c03_loc p) = C03PairOut p.
+Proof.
+  intros ND Hin Hsz. pose proof (c03s_reverse_found l sz p ND Hin Hsz) as E.
+  rewrite c03_reverse_sized_spec; rewrite E; auto. discriminate.
+Qed.
+Lemma c03_reverse_null_lemma l i : (i <= c03_max_loc l)%N -> (forall q, In q l -> c03_loc q <> i) -> c03_reverse l i = C03Null.
+Proof.
+  intros Hi Hn.
+  assert (E : c03s_reverse l (N.succ (c03_max_loc l)) i = C03Null).
+  { unfold c03s_reverse.
+    assert (E1 : existsb (fun q => (N.succ (c03_max_loc l) <=? c03_loc q)%N) l = false).
+    { destruct (existsb _ l) eqn:E; auto. apply existsb_exists in E. destruct E as (q & Hq & Hle).
+      apply N.leb_le in Hle. pose proof (c03_max_loc_ge l 0%N q Hq). unfold c03_max_loc in Hle. lia. }
+    rewrite E1. replace (N.succ (c03_max_loc l) <=? i)%N with false by (symmetry; apply N.leb_gt; lia).
+    rewrite c03_find_none; auto. intros q Hq. apply N.eqb_neq. apply Hn. apply in_rev. auto. }
+  rewrite c03_reverse_spec; rewrite E; auto. discriminate.
+Qed.
+Lemma c03_renumber_nodup l : forall i,
+  NoDup (map c03_loc (c03_renumber_from i l)) /\ forall q, In q (c03_renumber_from i l) -> (i <= c03_loc q)%N.
+Proof.
+  induction l as [|p r IH]; intros i; simpl.
+  - split; [constructor | tauto].
+  - destruct (IH (N.succ i)) as [ND LB]. split.
+    + constructor; auto. intros Hin. apply in_map_iff in Hin. destruct Hin as (q & Hq & Hqin).
+      specialize (LB q Hqin). lia.
+    + intros q [<-|Hq]; simpl; [lia|]. specialize (LB q Hq). lia.
+Qed.
+Lemma c03_reverse_after_renumber_lemma l p :
+  In p (c03_renumber_from 0 l) -> c03_reverse (c03_renumber_from 0 l) (c03_loc p) = C03PairOut p.
+Proof. intros H. apply c03_reverse_lemma; auto. apply c03_renumber_nodup. Qed.
+
+(* ------------------------------------------------------------------ what the checks are for: without them the set can be corrupted *)
+Lemma c03_ndebug_unprotected_lemma :
+  exists ops : list c03_op,
+    let st := fst (c03_run false false c03_init ops) in
+    c03_resize st = false /\ existsb c03_del (c03_local st) = true /\
+    (* the same history with checking: the offending call is rejected and the ground state is clean *)
+    let st' := fst (c03_run true false c03_init ops) in
+    In C03InvalidState (snd (c03_run true false c03_init ops)) /\ existsb c03_del (c03_local st') = false.
+Proof.
+  exists [C03Begin; C03Add 7 0 0 true; C03End; C03Begin; C03MarkDeleted 0; C03Begin; C03End].
+  vm_compute. repeat split; auto. right; right; right; right; right; left. reflexivity.
+Qed.
+
+Lemma c03_lookup_size_lemma l :
+  (forall p, In p l -> (c03_loc p < N.succ (c03_max_loc l))%N) /\ (l = [] -> c03_lookup_size l = C03Num 1).
+Proof.
+  split.
+  - intros p Hp. pose proof (c03_max_loc_ge l 0%N p Hp). unfold c03_max_loc. lia.
+  - intros ->. reflexivity.
+Qed.
+
+Lemma c03_iteration_strict_lemma legacy ops :
+  let l := c03_local (fst (c03_run true legacy c03_init ops)) in
+  NoDup (map c03_g l) -> StronglySorted c03_g_lt l.
+Proof. intros l ND. apply c03_strict_lemma; auto. apply (c03_invariant_lemma legacy ops). Qed.
